@@ -391,6 +391,9 @@ func (p *ClientProcessor) OnProto(parser *Parser, proto string) error {
 func (p *ClientProcessor) OnStatus(parser *Parser, code int, status string) {
 	p.response.StatusCode = code
 	p.response.Status = status
+	if p.conn != nil && p.conn.nextIsHead() {
+		parser.noBody = true
+	}
 }
 
 // OnHeader .
